@@ -24,7 +24,7 @@ FIRST = {
     "C15/6": "missed", "C16/6": "missed", "C18/6": "missed", "C20/6": "missed",
     # round 7 (9 changes, 6 missed)
     "C01/7": "missed", "C04/7": "missed", "C05/7": "missed", "C10/7": "missed", "C14/8": "missed", "C17/7": "missed",
-    # round 8 (11 changes, 6 missed; C11/7 stays missed: it needs a feature set the harness does not build)
+    # round 8 (11 changes, 6 missed)
     "C02/7": "missed", "C03/8": "missed", "C11/7": "missed", "C12/7": "missed", "C13/7": "missed", "C15/7": "missed",
 }
 
